@@ -18,11 +18,29 @@ Local Open Scope list_scope.
 (** class table: (class, bases) in source order *)
 Definition classtable := list (string * list string).
 
-(** The Python class an outcome stands for.  By the model's representation convention an ordinary
-    exception object [RExn n _ _] is never an instance of Stop / ControlOfFlowInstruction /
-    HandledError (those are [RSig] / [OHandled]); the ladders translated so far distinguish nothing
-    else, so it stands for a direct subclass of Exception. *)
-Definition class_of (o : outcome) : string :=
+(** The Python class an outcome stands for.  An ordinary exception object [RExn n _ _] carries the
+    name [get_error_name] gives it: a bare builtin name, [module.Class] for a step-defined class, or
+    [pypyr.errors.X] — the latter is looked up in the class table generated from pypyr/errors.py.
+    By the model's representation convention an [RExn] is an Exception that is never an instance
+    of Stop / ControlOfFlowInstruction / HandledError (those are [RSig] / [OHandled]): such names
+    are mapped to an anonymous direct subclass of Exception.  (Builtin hierarchy — LookupError,
+    OSError, ... — is not represented: a builtin is a direct subclass of Exception.) *)
+Definition instruction_classes : list string :=
+  ["Stop"; "StopPipeline"; "StopStepGroup"; "ControlOfFlowInstruction"; "Call"; "Jump";
+   "HandledError"; "BaseException"].
+
+Definition strip_prefix (p s : string) : string :=
+  if String.prefix p s then substring (String.length p) (String.length s - String.length p) s else s.
+
+Definition ordinary_class (t : classtable) (n : string) : string :=
+  if String.prefix "pypyr.errors." n then
+    let c := strip_prefix "pypyr.errors." n in
+    if existsb (String.eqb c) instruction_classes then "<ordinary>"
+    else if existsb (fun p => String.eqb (fst p) c) t then c
+    else "<ordinary>"
+  else "<ordinary>".
+
+Definition class_of (t : classtable) (o : outcome) : string :=
   match o with
   | ORaise (RSig SStop) => "Stop"
   | ORaise (RSig SStopPipeline) => "StopPipeline"
@@ -30,7 +48,7 @@ Definition class_of (o : outcome) : string :=
   | ORaise (RSig (SCall _)) => "Call"
   | ORaise (RSig (SJump _)) => "Jump"
   | OHandled _ => "HandledError"
-  | ORaise (RExn _ _ _) => "<ordinary>"
+  | ORaise (RExn n _ _) => ordinary_class t n
   | OOk | OUnsup => ""
   end.
 
@@ -54,7 +72,7 @@ Definition is_exn (o : outcome) : bool :=
 
 (** [isinstance(exc, (C1, C2, ...))] *)
 Definition isinst (t : classtable) (o : outcome) (classes : list string) : bool :=
-  is_exn o && existsb (subclass (S (S (S (List.length t)))) t (class_of o)) classes.
+  is_exn o && existsb (subclass (S (S (S (List.length t)))) t (class_of t o)) classes.
 
 (** [for x in xs: body] — stops at the first outcome that is not normal completion *)
 Fixpoint for_each {A} (xs : list A) (f : A -> st -> R) (s : st) : R :=
